@@ -118,8 +118,10 @@ class SharedBufferAPI : public BufferAPI<ArrayT>
     bool readOnly() const override
      { return !_orig.writable(); }
 
+    //  The exported view carries the read-only flag itself; the checked
+    // direct_index() would throw (inside a C slot) for read-only arrays.
     void *buffer() override
-     { return static_cast<void *> (&_orig.direct_index(0)); }
+     { return static_cast<void *> (&_orig.unchecked_direct_index(0)); }
 
   private:
 
@@ -137,11 +139,17 @@ class CopyBufferAPI : public BufferAPI<ArrayT>
 
     using BufferAPI<ArrayT>::atomicSize;
 
+    //  A dense private copy of the elements: copying the FixedArray object
+    // would share the (read-only) storage with the source.
     explicit
     CopyBufferAPI (ArrayT &a)
-     : BufferAPI<ArrayT> (a.len(), a.stride()),
-              _copy (a)
-    {}
+     : BufferAPI<ArrayT> (a.len(), 1),
+              _copy (a.len())
+    {
+        const ArrayT &ca = a;
+        for (size_t i = 0; i < size_t (a.len()); ++i)
+            _copy.unchecked_direct_index (i) = ca.direct_index (i);
+    }
 
     virtual ~CopyBufferAPI() = default;
 
@@ -159,7 +167,7 @@ class CopyBufferAPI : public BufferAPI<ArrayT>
      { return false; }
 
     void *buffer() override
-     { return static_cast<void *> (&_copy.direct_index(0)); }
+     { return static_cast<void *> (&_copy.unchecked_direct_index(0)); }
 
   private:
 
